@@ -5,6 +5,8 @@ import (
 	"errors"
 	"fmt"
 	"io"
+	"runtime"
+	"time"
 
 	"pgregory.net/rapid"
 )
@@ -29,6 +31,19 @@ type ScriptedReader struct {
 	// them together with Err (allowed by the io.Reader contract) instead of
 	// returning (n, nil) first and (0, Err) on the next call.
 	ErrWithData bool
+	// Collect makes every Read run a garbage collection (and give finalizers
+	// time to run) first: a slow entropy source is where a collection lands in
+	// the middle of a signing call, and objects the call no longer references
+	// -- the key, when the call is its last use -- may be finalized right there.
+	Collect bool
+}
+
+// CollectNow runs a garbage collection and lets queued finalizers run.
+func CollectNow() {
+	runtime.GC()
+	time.Sleep(500 * time.Microsecond)
+	runtime.GC()
+	time.Sleep(200 * time.Microsecond)
 }
 
 func (r *ScriptedReader) failure() error {
@@ -40,6 +55,9 @@ func (r *ScriptedReader) failure() error {
 
 func (r *ScriptedReader) Read(p []byte) (int, error) {
 	r.Calls++
+	if r.Collect {
+		CollectNow()
+	}
 	if len(p) == 0 {
 		return 0, nil
 	}
@@ -90,7 +108,7 @@ func FailureKind(t *rapid.T, label string) (err error, withData bool, desc strin
 
 // Clone returns a fresh reader with the same script.
 func (r *ScriptedReader) Clone() *ScriptedReader {
-	return &ScriptedReader{Data: append([]byte(nil), r.Data...), Chunks: append([]int(nil), r.Chunks...), FailAfter: r.FailAfter, Desc: r.Desc, Err: r.Err, ErrWithData: r.ErrWithData}
+	return &ScriptedReader{Data: append([]byte(nil), r.Data...), Chunks: append([]int(nil), r.Chunks...), FailAfter: r.FailAfter, Desc: r.Desc, Err: r.Err, ErrWithData: r.ErrWithData, Collect: r.Collect}
 }
 
 // EntropyContent draws n bytes of reader content: constant, counter, zero,
